@@ -368,4 +368,430 @@ theorem quietC_rest (p : Pos) (m : Mv) :
   simp only []
   split <;> (try split) <;> (try split) <;> exact ⟨rfl, rfl, rfl, rfl, rfl⟩
 
+theorem kind_wpawn : kind WPAWN = 6 := by decide
+theorem kind_bpawn : kind BPAWN = 6 := by decide
+
+/-- fields of `makeC` in the capture-or-pawn branch -/
+theorem makeC_cap (p : Pos) (m : Mv) (hc : getP p.b m.t.val ≠ 0 ∨ isPawnAt p.b m.f.val) :
+    makeC p m =
+      { b := setSq (setSq (epClearedB p.b m (getP p.b m.f.val) p.ep) m.f.val 0) m.t.val
+               (if m.promo ≠ 0 then m.promo else getP p.b m.f.val)
+        wtm := !p.wtm
+        castle := p.castle &&& castleKeep m.f &&& castleKeep m.t
+        ep := epNewC { p with ep := none, hmc := 0 } m (getP p.b m.f.val)
+        hmc := 0
+        fmc := if p.wtm then p.fmc else p.fmc + 1 } := by
+  unfold makeC
+  simp only [if_pos hc]
+  have hr := capOrPawnC_rest { p with ep := none, hmc := 0 } m (getP p.b m.f.val) p.ep
+  apply pos_ext
+  · exact capOrPawnC_b _ _ _ _
+  · rfl
+  · show (capOrPawnC _ m _ _).castle &&& _ &&& _ = _; rw [hr.2.1]
+  · exact capOrPawnC_ep _ _ _ _
+  · exact hr.2.2.1
+  · show (if p.wtm then (capOrPawnC _ m _ _).fmc else (capOrPawnC _ m _ _).fmc + 1) = _; rw [hr.2.2.2]
+
+/-- board effect of the quiet branch -/
+def rookB (b : Board) (m : Mv) : Board :=
+  if isKingAt b m.f.val then
+    if m.t.val = m.f.val + 2 then setSq (setSq b (m.f.val + 3) 0) (m.f.val + 1) (getP b (m.f.val + 3))
+    else if m.t.val + 2 = m.f.val then setSq (setSq b (m.f.val - 4) 0) (m.f.val - 1) (getP b (m.f.val - 4))
+    else b
+  else b
+
+def quietB (b : Board) (m : Mv) : Board := setSq (setSq (rookB b m) m.f.val 0) m.t.val (getP (rookB b m) m.f.val)
+
+theorem quietC_b (p : Pos) (m : Mv) : (quietC p m).b = quietB p.b m := by
+  unfold quietC rookStepC moveC Pos.withB quietB rookB
+  simp only []
+  split <;> (try split) <;> (try split) <;> rfl
+
+theorem makeC_quiet (p : Pos) (m : Mv) (hc : ¬ (getP p.b m.t.val ≠ 0 ∨ isPawnAt p.b m.f.val)) :
+    makeC p m =
+      { b := quietB p.b m
+        wtm := !p.wtm
+        castle := p.castle &&& castleKeep m.f &&& castleKeep m.t
+        ep := none
+        hmc := p.hmc + 1
+        fmc := if p.wtm then p.fmc else p.fmc + 1 } := by
+  unfold makeC
+  simp only [if_neg hc]
+  have hr := quietC_rest { p with ep := none, hmc := p.hmc + 1 } m
+  apply pos_ext
+  · exact quietC_b _ m
+  · rfl
+  · show (quietC _ m).castle &&& _ &&& _ = _; rw [hr.2.1]
+  · exact hr.2.2.1
+  · exact hr.2.2.2.1
+  · show (if p.wtm then (quietC _ m).fmc else (quietC _ m).fmc + 1) = _; rw [hr.2.2.2.2]
+
+/-! explicit form of the specification's `apply` -/
+def isEpS (p : Pos) (m : Mv) : Bool :=
+  kind (getP p.b m.f.val) == 6 && p.ep == some m.t && !(getP p.b m.t.val != 0) && m.f.x != m.t.x
+
+def b3S (p : Pos) (m : Mv) : Board :=
+  setSq (setSq (if isEpS p m then setSq p.b (if p.wtm then m.t.val - 8 else m.t.val + 8) 0 else p.b) m.f.val 0) m.t.val
+    (if m.promo != 0 then m.promo else getP p.b m.f.val)
+
+def b4S (p : Pos) (m : Mv) : Board :=
+  if kind (getP p.b m.f.val) == 1 && m.t.val == m.f.val + 2 then
+    setSq (setSq (b3S p m) (m.f.val + 3) 0) (m.f.val + 1) (if p.wtm then WROOK else BROOK)
+  else if kind (getP p.b m.f.val) == 1 && m.t.val + 2 == m.f.val then
+    setSq (setSq (b3S p m) (m.f.val - 4) 0) (m.f.val - 1) (if p.wtm then WROOK else BROOK)
+  else b3S p m
+
+def epS (p : Pos) (m : Mv) : Option Sq :=
+  if kind (getP p.b m.f.val) == 6 && (m.t.val == m.f.val + 16 || m.f.val == m.t.val + 16) then
+    let enemyPawn : Pc := if p.wtm then BPAWN else WPAWN
+    let adj := (m.t.x > 0 && (b4S p m).getD (m.t.val - 1) 0 == enemyPawn) || (m.t.x < 7 && (b4S p m).getD (m.t.val + 1) 0 == enemyPawn)
+    if adj then some ⟨((m.f.val + m.t.val) / 2) % 64, Nat.mod_lt _ (by decide)⟩ else none
+  else none
+
+theorem apply_eq (p : Pos) (m : Mv) :
+    Chess.apply p m =
+      { b := b4S p m, wtm := !p.wtm, castle := p.castle &&& castleKeep m.f &&& castleKeep m.t, ep := epS p m,
+        hmc := if (kind (getP p.b m.f.val) == 6 || getP p.b m.t.val != 0) then 0 else p.hmc + 1,
+        fmc := if p.wtm then p.fmc else p.fmc + 1 } := by
+  unfold Chess.apply
+  simp only [at_eq]
+  rfl
+
+theorem ep_white_facts (p : Pos) (m : Mv) (h : pseudo p m = true) (he : EpOk p) (hpc : getP p.b m.f.val = WPAWN)
+    (hep : p.ep = some m.t) : getP p.b m.t.val = 0 ∧ m.t.val ≠ m.f.val + 16 ∧ m.f.val % 8 ≠ m.t.val % 8 := by
+  obtain ⟨hw, _, hmv⟩ := pseudo_wpawn p m h hpc
+  have h2 := he m.t hep
+  rw [hw] at h2
+  simp only [if_true] at h2
+  have hbw : ¬ WPAWN = BPAWN := by decide
+  have hb0 : ¬ (0 : Pc) = BPAWN := by decide
+  rcases hmv with h1 | h1 | h1
+  · exfalso
+    have : m.t.val - 8 = m.f.val := by omega
+    rw [this, hpc] at h2; exact hbw h2.2
+  · exfalso
+    have : m.t.val - 8 = m.f.val + 8 := by omega
+    rw [this, h1.2.2.2] at h2; exact hb0 h2.2
+  · refine ⟨h2.1, by omega, by omega⟩
+
+theorem isEpS_white (p : Pos) (m : Mv) (h : pseudo p m = true) (he : EpOk p) (hpc : getP p.b m.f.val = WPAWN) :
+    isEpS p m = decide (p.ep = some m.t) := by
+  unfold isEpS
+  rw [hpc, kind_wpawn]
+  by_cases hep : p.ep = some m.t
+  · obtain ⟨h1, _, h3⟩ := ep_white_facts p m h he hpc hep
+    have hx : (m.f.x != m.t.x) = true := by
+      unfold Sq.x; simp only [bne_iff_ne, ne_eq]; exact h3
+    simp [hep, h1, hx]
+  · simp [hep]
+
+theorem getD_eq_getP (b : Board) (n : Nat) : b.getD n 0 = getP b n := rfl
+
+theorem toNat_12 (pc : Pc) : pc.toNat = 12 ↔ pc = BPAWN := toNat_eq_iff pc 12 (by decide)
+theorem toNat_6 (pc : Pc) : pc.toNat = 6 ↔ pc = WPAWN := toNat_eq_iff pc 6 (by decide)
+
+theorem makeC_apply_wpawn (p : Pos) (m : Mv) (h : pseudo p m = true) (he : EpOk p)
+    (hpc : getP p.b m.f.val = WPAWN) : makeC p m = Chess.apply p m := by
+  obtain ⟨hw, hpr, hmv⟩ := pseudo_wpawn p m h hpc
+  have hf := m.f.isLt
+  have ht := m.t.isLt
+  have hpawn : isPawnAt p.b m.f.val := by unfold isPawnAt; rw [hpc]; decide
+  have hgt : m.t.val > m.f.val := by omega
+  rw [makeC_cap p m (Or.inr hpawn), apply_eq]
+  have hk1 : (kind WPAWN == 1) = false := by decide
+  have hb4 : b4S p m = b3S p m := by unfold b4S; rw [hpc]; simp [hk1]
+  have hisEp := isEpS_white p m h he hpc
+  apply pos_ext
+  · -- board
+    show _ = b4S p m
+    rw [hb4]
+    unfold b3S epClearedB
+    rw [hisEp, hpc, hw]
+    simp only [if_true, bne_iff_ne, ne_eq, decide_eq_true_eq]
+    by_cases hep : p.ep = some m.t
+    · have := (ep_white_facts p m h he hpc hep).2.1
+      simp only [if_neg this, if_pos hep]
+    · by_cases h16 : m.t.val = m.f.val + 16
+      · simp only [if_pos h16, if_neg hep]
+      · simp only [if_neg h16, if_neg hep]
+  · rfl
+  · rfl
+  · -- e.p. square
+    show epNewC _ m _ = epS p m
+    unfold epNewC epS
+    rw [hpc, kind_wpawn, hw]
+    simp only [if_true, beq_self_eq_true, Bool.true_and]
+    have hno : (m.f.val == m.t.val + 16) = false := by simp; omega
+    by_cases h16 : m.t.val = m.f.val + 16
+    · have hrank : m.f.val / 8 = 1 := by
+        rcases hmv with h1 | h1 | h1 <;> omega
+      have hbeq : (m.t.val == m.f.val + 16) = true := by simpa using h16
+      simp only [if_pos h16, hbeq, Bool.true_or, if_true, hb4, getD_eq_getP]
+      have hne : ¬ p.ep = some m.t := fun hep => (ep_white_facts p m h he hpc hep).2.1 h16
+      have hb3 : ∀ k, k ≠ m.f.val → k ≠ m.t.val → getP (b3S p m) k = getP p.b k := by
+        intro k hkf hkt
+        unfold b3S
+        rw [hisEp]
+        simp only [hne, decide_false, Bool.false_eq_true, if_false]
+        rw [getP_setSq _ _ _ _ ht, if_neg hkt, getP_setSq _ _ _ _ hf, if_neg hkf]
+      have e1 : m.t.x > 0 → getP (b3S p m) (m.t.val - 1) = getP p.b (24 + m.t.val % 8 - 1) := by
+        intro hx; unfold Sq.x at hx
+        rw [hb3 _ (by omega) (by omega)]; congr 1; omega
+      have e2 : m.t.x < 7 → getP (b3S p m) (m.t.val + 1) = getP p.b (24 + m.t.val % 8 + 1) := by
+        intro hx; unfold Sq.x at hx
+        rw [hb3 _ (by omega) (by omega)]; congr 1; omega
+      have hadj : adjPawn p.b 24 m.t.val 12 ↔
+          ((decide (m.t.x > 0) && getP (b3S p m) (m.t.val - 1) == BPAWN) ||
+           (decide (m.t.x < 7) && getP (b3S p m) (m.t.val + 1) == BPAWN)) = true := by
+        unfold adjPawn
+        simp only [Bool.or_eq_true, Bool.and_eq_true, decide_eq_true_eq, beq_iff_eq, toNat_12]
+        constructor
+        · rintro (⟨a, b⟩ | ⟨a, b⟩)
+          · left; have a' : m.t.x > 0 := a; exact ⟨a', by rw [e1 a']; exact b⟩
+          · right; have a' : m.t.x < 7 := a; exact ⟨a', by rw [e2 a']; exact b⟩
+        · rintro (⟨a, b⟩ | ⟨a, b⟩)
+          · left; exact ⟨a, by rw [← e1 a]; exact b⟩
+          · right; exact ⟨a, by rw [← e2 a]; exact b⟩
+      by_cases ha : adjPawn p.b 24 m.t.val 12
+      · rw [if_pos ha, if_pos (hadj.1 ha)]
+        unfold mkSqN?
+        rw [dif_pos (by omega : m.f.val + 8 < 64)]
+        congr 1; apply Fin.ext; simp only []; omega
+      · rw [if_neg ha, if_neg (fun hh => ha (hadj.2 hh))]
+    · have hbeq : (m.t.val == m.f.val + 16) = false := by simpa using h16
+      simp only [if_neg h16, hbeq, hno, Bool.or_self, Bool.false_eq_true, if_false]
+  · -- half-move clock
+    show 0 = if (kind (getP p.b m.f.val) == 6 || getP p.b m.t.val != 0) then 0 else p.hmc + 1
+    rw [hpc, kind_wpawn]; simp
+  · rfl
+
+theorem ep_black_facts (p : Pos) (m : Mv) (h : pseudo p m = true) (he : EpOk p) (hpc : getP p.b m.f.val = BPAWN)
+    (hep : p.ep = some m.t) : getP p.b m.t.val = 0 ∧ m.t.val + 16 ≠ m.f.val ∧ m.f.val % 8 ≠ m.t.val % 8 := by
+  obtain ⟨hw, _, hmv⟩ := pseudo_bpawn p m h hpc
+  have h2 := he m.t hep
+  rw [hw] at h2
+  simp only [Bool.false_eq_true, if_false] at h2
+  have hbw : ¬ BPAWN = WPAWN := by decide
+  have hb0 : ¬ (0 : Pc) = WPAWN := by decide
+  rcases hmv with h1 | h1 | h1
+  · exfalso
+    have : m.t.val + 8 = m.f.val := by omega
+    rw [this, hpc] at h2; exact hbw h2.2
+  · exfalso
+    have : m.t.val + 8 = m.f.val - 8 := by omega
+    rw [this, h1.2.2.2] at h2; exact hb0 h2.2
+  · refine ⟨h2.1, by omega, by omega⟩
+
+theorem isEpS_black (p : Pos) (m : Mv) (h : pseudo p m = true) (he : EpOk p) (hpc : getP p.b m.f.val = BPAWN) :
+    isEpS p m = decide (p.ep = some m.t) := by
+  unfold isEpS
+  rw [hpc, kind_bpawn]
+  by_cases hep : p.ep = some m.t
+  · obtain ⟨h1, _, h3⟩ := ep_black_facts p m h he hpc hep
+    have hx : (m.f.x != m.t.x) = true := by
+      unfold Sq.x; simp only [bne_iff_ne, ne_eq]; exact h3
+    simp [hep, h1, hx]
+  · simp [hep]
+
+theorem makeC_apply_bpawn (p : Pos) (m : Mv) (h : pseudo p m = true) (he : EpOk p)
+    (hpc : getP p.b m.f.val = BPAWN) : makeC p m = Chess.apply p m := by
+  obtain ⟨hw, hpr, hmv⟩ := pseudo_bpawn p m h hpc
+  have hf := m.f.isLt
+  have ht := m.t.isLt
+  have hpawn : isPawnAt p.b m.f.val := by unfold isPawnAt; rw [hpc]; decide
+  have hgt : m.t.val < m.f.val := by omega
+  rw [makeC_cap p m (Or.inr hpawn), apply_eq]
+  have hk1 : (kind BPAWN == 1) = false := by decide
+  have hbw : ¬ BPAWN = WPAWN := by decide
+  have hb4 : b4S p m = b3S p m := by unfold b4S; rw [hpc]; simp [hk1]
+  have hisEp := isEpS_black p m h he hpc
+  apply pos_ext
+  · -- board
+    show _ = b4S p m
+    rw [hb4]
+    unfold b3S epClearedB
+    rw [hisEp, hpc, hw]
+    simp only [if_neg hbw, if_true, Bool.false_eq_true, if_false, bne_iff_ne, ne_eq, decide_eq_true_eq]
+    by_cases hep : p.ep = some m.t
+    · have := (ep_black_facts p m h he hpc hep).2.1
+      simp only [if_neg this, if_pos hep]
+    · by_cases h16 : m.t.val + 16 = m.f.val
+      · simp only [if_pos h16, if_neg hep]
+      · simp only [if_neg h16, if_neg hep]
+  · rfl
+  · rfl
+  · -- e.p. square
+    show epNewC _ m _ = epS p m
+    unfold epNewC epS
+    rw [hpc, kind_bpawn, hw]
+    simp only [if_neg hbw, if_true, Bool.false_eq_true, if_false, beq_self_eq_true, Bool.true_and]
+    have hno : (m.t.val == m.f.val + 16) = false := by simp; omega
+    by_cases h16 : m.t.val + 16 = m.f.val
+    · have hrank : m.f.val / 8 = 6 := by
+        rcases hmv with h1 | h1 | h1 <;> omega
+      have hbeq : (m.f.val == m.t.val + 16) = true := by simp; omega
+      simp only [if_pos h16, hbeq, Bool.or_true, if_true, hb4, getD_eq_getP]
+      have hne : ¬ p.ep = some m.t := fun hep => (ep_black_facts p m h he hpc hep).2.1 h16
+      have hb3 : ∀ k, k ≠ m.f.val → k ≠ m.t.val → getP (b3S p m) k = getP p.b k := by
+        intro k hkf hkt
+        unfold b3S
+        rw [hisEp]
+        simp only [hne, decide_false, Bool.false_eq_true, if_false]
+        rw [getP_setSq _ _ _ _ ht, if_neg hkt, getP_setSq _ _ _ _ hf, if_neg hkf]
+      have e1 : m.t.x > 0 → getP (b3S p m) (m.t.val - 1) = getP p.b (32 + m.t.val % 8 - 1) := by
+        intro hx; unfold Sq.x at hx
+        rw [hb3 _ (by omega) (by omega)]; congr 1; omega
+      have e2 : m.t.x < 7 → getP (b3S p m) (m.t.val + 1) = getP p.b (32 + m.t.val % 8 + 1) := by
+        intro hx; unfold Sq.x at hx
+        rw [hb3 _ (by omega) (by omega)]; congr 1; omega
+      have hadj : adjPawn p.b 32 m.t.val 6 ↔
+          ((decide (m.t.x > 0) && getP (b3S p m) (m.t.val - 1) == WPAWN) ||
+           (decide (m.t.x < 7) && getP (b3S p m) (m.t.val + 1) == WPAWN)) = true := by
+        unfold adjPawn
+        simp only [Bool.or_eq_true, Bool.and_eq_true, decide_eq_true_eq, beq_iff_eq, toNat_6]
+        constructor
+        · rintro (⟨a, b⟩ | ⟨a, b⟩)
+          · left; have a' : m.t.x > 0 := a; exact ⟨a', by rw [e1 a']; exact b⟩
+          · right; have a' : m.t.x < 7 := a; exact ⟨a', by rw [e2 a']; exact b⟩
+        · rintro (⟨a, b⟩ | ⟨a, b⟩)
+          · left; exact ⟨a, by rw [← e1 a]; exact b⟩
+          · right; exact ⟨a, by rw [← e2 a]; exact b⟩
+      by_cases ha : adjPawn p.b 32 m.t.val 6
+      · rw [if_pos ha, if_pos (hadj.1 ha)]
+        unfold mkSqN?
+        rw [dif_pos (by omega : m.f.val - 8 < 64)]
+        congr 1; apply Fin.ext; simp only []; omega
+      · rw [if_neg ha, if_neg (fun hh => ha (hadj.2 hh))]
+    · have hbeq : (m.f.val == m.t.val + 16) = false := by simp; omega
+      simp only [if_neg h16, hbeq, hno, Bool.or_self, Bool.false_eq_true, if_false]
+  · -- half-move clock
+    show 0 = if (kind (getP p.b m.f.val) == 6 || getP p.b m.t.val != 0) then 0 else p.hmc + 1
+    rw [hpc, kind_bpawn]; simp
+  · rfl
+
+theorem not_pawn_of_kind (pc : Pc) (hk : kind pc ≠ 6) : pc ≠ WPAWN ∧ pc ≠ BPAWN := by
+  constructor
+  · intro h; rw [h] at hk; exact hk kind_wpawn
+  · intro h; rw [h] at hk; exact hk kind_bpawn
+
+theorem makeC_apply_other (p : Pos) (m : Mv) (h : pseudo p m = true)
+    (hk6 : kind (getP p.b m.f.val) ≠ 6) : makeC p m = Chess.apply p m := by
+  have hb := pseudo_basic p m h
+  have hf := m.f.isLt
+  have ht := m.t.isLt
+  have hpromo := pseudo_other p m h hk6
+  have hnp := not_pawn_of_kind _ hk6
+  have hk6b : (kind (getP p.b m.f.val) == 6) = false := by simpa using hk6
+  have hnpa : ¬ isPawnAt p.b m.f.val := fun hh => hk6 ((pawnAt_iff _ _).1 hh)
+  have hisEp : isEpS p m = false := by unfold isEpS; rw [hk6b]; rfl
+  have hb3 : b3S p m = setSq (setSq p.b m.f.val 0) m.t.val (getP p.b m.f.val) := by
+    unfold b3S; rw [hisEp, hpromo]; simp
+  have hepS : epS p m = none := by unfold epS; rw [hk6b]; rfl
+  by_cases htg : getP p.b m.t.val = 0
+  · -- quiet move
+    have hc : ¬ (getP p.b m.t.val ≠ 0 ∨ isPawnAt p.b m.f.val) := by
+      rintro (h1 | h1)
+      · exact h1 htg
+      · exact hnpa h1
+    rw [makeC_quiet p m hc, apply_eq]
+    apply pos_ext
+    · show quietB p.b m = b4S p m
+      unfold quietB rookB b4S
+      rw [hb3]
+      by_cases hk : kind (getP p.b m.f.val) = 1
+      · have hka : isKingAt p.b m.f.val := (kingAt_iff _ _).2 hk
+        have hkb : (kind (getP p.b m.f.val) == 1) = true := by simpa using hk
+        simp only [if_pos hka, hkb, Bool.true_and, beq_iff_eq]
+        have hpk := (pseudo_king p m h hk).2
+        by_cases h2 : m.t.val = m.f.val + 2
+        · simp only [if_pos h2]
+          rcases hpk with h3 | ⟨_, h4, h5⟩ | ⟨h3, _, _⟩
+          · exact absurd h2 h3.1
+          · have hcs := castleOk_short p h5
+            rw [← h4] at hcs
+            have hlt : m.f.val + 3 < 64 := by cases hw : p.wtm <;> simp [hw] at h4 <;> omega
+            apply board_ext
+            intro k hk
+            rw [hcs.2.2]
+            simp only [getP_setSq _ _ _ _ hf, getP_setSq _ _ _ _ ht, getP_setSq _ _ _ _ hlt,
+              getP_setSq _ _ _ _ (by omega : m.f.val + 1 < 64)]
+            repeat' split
+            all_goals first | rfl | omega
+          · omega
+        · simp only [if_neg h2]
+          by_cases h3 : m.t.val + 2 = m.f.val
+          · simp only [if_pos h3]
+            rcases hpk with h4 | ⟨h4, _, _⟩ | ⟨_, h4, h5⟩
+            · exact absurd h3 h4.2
+            · omega
+            · have hcl := castleOk_long p h5
+              rw [← h4] at hcl
+              have hge : m.f.val ≥ 4 := by cases hw : p.wtm <;> simp [hw] at h4 <;> omega
+              apply board_ext
+              intro k hk
+              rw [hcl.2.2.2]
+              simp only [getP_setSq _ _ _ _ hf, getP_setSq _ _ _ _ ht, getP_setSq _ _ _ _ (by omega : m.f.val - 4 < 64),
+                getP_setSq _ _ _ _ (by omega : m.f.val - 1 < 64)]
+              repeat' split
+              all_goals first | rfl | omega
+          · simp only [if_neg h3]
+      · have hka : ¬ isKingAt p.b m.f.val := fun hh => hk ((kingAt_iff _ _).1 hh)
+        have hkb : (kind (getP p.b m.f.val) == 1) = false := by simpa using hk
+        simp only [if_neg hka, hkb, Bool.false_and, Bool.false_eq_true, if_false]
+    · rfl
+    · rfl
+    · exact hepS.symm
+    · show p.hmc + 1 = if (kind (getP p.b m.f.val) == 6 || getP p.b m.t.val != 0) then 0 else p.hmc + 1
+      rw [hk6b, htg]; simp
+    · rfl
+  · -- capture by a piece
+    rw [makeC_cap p m (Or.inl htg), apply_eq]
+    apply pos_ext
+    · show _ = b4S p m
+      have hb4 : b4S p m = b3S p m := by
+        unfold b4S
+        by_cases hk : kind (getP p.b m.f.val) = 1
+        · have hpk := (pseudo_king p m h hk).2
+          have n1 : ¬ m.t.val = m.f.val + 2 := by
+            intro h2
+            rcases hpk with h3 | ⟨_, h4, h5⟩ | ⟨h3, _, _⟩
+            · exact h3.1 h2
+            · have hcs := castleOk_short p h5
+              rw [← h4, ← h2] at hcs; exact htg hcs.2.1
+            · omega
+          have n2 : ¬ m.t.val + 2 = m.f.val := by
+            intro h2
+            rcases hpk with h3 | ⟨h3, _, _⟩ | ⟨_, h4, h5⟩
+            · exact h3.2 h2
+            · omega
+            · have hcl := castleOk_long p h5
+              rw [← h4] at hcl
+              have : m.f.val - 2 = m.t.val := by omega
+              rw [this] at hcl; exact htg hcl.2.1
+          simp [n1, n2]
+        · have hkb : (kind (getP p.b m.f.val) == 1) = false := by simpa using hk
+          simp [hkb]
+      rw [hb4, hb3]
+      unfold epClearedB
+      simp only [if_neg hnp.1, if_neg hnp.2, hpromo]
+      simp
+    · rfl
+    · rfl
+    · show epNewC _ m _ = epS p m
+      rw [hepS]; unfold epNewC
+      simp only [if_neg hnp.1, if_neg hnp.2]
+    · show 0 = if (kind (getP p.b m.f.val) == 6 || getP p.b m.t.val != 0) then 0 else p.hmc + 1
+      simp [htg]
+    · rfl
+
+/-- **`makeMove` computes the specification's `apply`** (essential state) -/
+theorem makeC_eq_apply (p : Pos) (m : Mv) (h : pseudo p m = true) (he : EpOk p) : makeC p m = Chess.apply p m := by
+  by_cases hk6 : kind (getP p.b m.f.val) = 6
+  · have hb := pseudo_basic p m h
+    cases hw : p.wtm
+    · rw [hw] at hb; exact makeC_apply_bpawn p m h he ((own_black _ hb.1).2.2.1 hk6)
+    · rw [hw] at hb; exact makeC_apply_wpawn p m h he ((own_white _ hb.1).2.2.1 hk6)
+  · exact makeC_apply_other p m h hk6
+
+
 end PosImpl
